@@ -325,7 +325,8 @@ pub fn run_split(left: &mut (dyn FnMut() + Send), right: &mut (dyn FnMut() + Sen
             let lres;
             {
                 let cell = &rres_cell;
-                let mut handle = crate::tpool::run_scoped(Box::new(move || {
+                let tslot = sched.alloc_thread_slot(16);
+                let mut handle = crate::tpool::run_scoped_on(tslot, Box::new(move || {
                     sched::set_ctx(Some(TaskCtx { sched: sched2.clone(), id: child, quiet: 0 }));
                     set_joinctl(Some(ctl2));
                     apply_level(level);
@@ -343,6 +344,7 @@ pub fn run_split(left: &mut (dyn FnMut() + Send), right: &mut (dyn FnMut() + Sen
                 lres = catch_unwind(AssertUnwindSafe(|| left()));
                 sched.block_join(id, child);
                 handle.wait();
+                sched.free_thread_slot(tslot);
             }
             let rres = rres_cell.into_inner().unwrap().unwrap_or(Err("child did not run".into()));
             if let Err(p) = lres {
@@ -377,6 +379,7 @@ pub struct TaskLocal {
 pub fn exec(plan: &Plan) -> ExecOut {
     let data: Vec<Vec<u8>> = plan.data.iter().map(|d| d.materialize(plan.cfg.secret_xor)).collect();
     let n = plan.tasks.len();
+    crate::tpool::FRESH.store(plan.cfg.fresh_threads, Ordering::Relaxed);
     if !FIRST_USE.load(Ordering::Relaxed) {
         crate::guard::reset_arena();
         // every run starts from the same C dispatcher state
@@ -407,7 +410,9 @@ pub fn exec(plan: &Plan) -> ExecOut {
         let mut handles = Vec::new();
         for id in 0..n {
             let sh = shared.clone();
-            handles.push(crate::tpool::run_static(Box::new(move || run_task(sh, id))));
+            // with cfg.fresh_threads every other task runs on a brand-new OS thread, the rest on pooled (old) ones:
+            // long-lived and short-lived thread identities meet in one run
+            handles.push(crate::tpool::run_on(id, Box::new(move || run_task(sh, id)), id % 2 == 1));
         }
         sched.start();
         ok = sched.wait_all_done();
